@@ -105,7 +105,18 @@ def run_one(job):
 
 random.seed(SEED)
 jobs = []
-for f, props in sorted(files.items()):
+RERUN = opt("--rerun", None)
+if RERUN:
+    # re-run the undetected compiling mutants of an earlier campaign against today's rules
+    for r in json.load(open(RERUN)):
+        if r["compiled"] and not r["fired"]:
+            src = open(os.path.join("/repo", r["file"])).read().split("\n")
+            idx = r["line"] - 1
+            if src[idx].strip()[:140] != r["old"] or len(r["new"]) >= 140:
+                continue
+            ind = src[idx][:len(src[idx]) - len(src[idx].lstrip())]
+            jobs.append((r["file"], set(r["checks"]), idx, ind + r["new"], r["op"], r["line"]))
+for f, props in sorted(files.items() if not RERUN else []):
     if only and not any(o in f for o in only):
         continue
     path = os.path.join("/repo", f)
